@@ -36,15 +36,15 @@ var c13Failures = []error{
 }
 
 type c13Call struct {
-	Kind    string // get, proof, update, fetchcp
-	Attempt int
-	Old     uint64
-	CP      []byte
-	Proof   [][]byte
-	From    f_log.Checkpoint
-	To      f_log.Checkpoint
-	Ret     []byte
-	Err     error
+	Kind        string // get, proof, update, fetchcp
+	Attempt     int
+	Old         uint64
+	CP          []byte
+	Proof       [][]byte
+	From        f_log.Checkpoint
+	To          f_log.Checkpoint
+	Ret         []byte
+	Err         error
 	AfterCancel bool
 }
 
@@ -69,9 +69,9 @@ func (s *c13Stub) latest() []byte {
 type c13Scenario struct {
 	Bound int
 	W     int // -1 = nothing stored
-	Head int
-	Kind string // honest, fork, wrong-key, wrong-origin
-	Real bool
+	Head  int
+	Kind  string // honest, fork, wrong-key, wrong-origin
+	Real  bool
 }
 
 func (sc c13Scenario) String() string {
@@ -241,7 +241,9 @@ func c13Exec(run *ev.Run, u *uni.U, gen *wh.CPGen, la wh.LogCfg, sc c13Scenario,
 
 	// ------------------------------------------------------------ oracle
 	rep := map[string]any{"kind": "feed-cycle", "scenario": sc.String(), "choices": c.Choices(), "deviations": c.Trace()}
-	desc := func(s string) string { return fmt.Sprintf("scenario [%s], environment answers %v: %s", sc, c.Trace(), s) }
+	desc := func(s string) string {
+		return fmt.Sprintf("scenario [%s], environment answers %v: %s", sc, c.Trace(), s)
+	}
 	sig := func(k string) string {
 		mode := "stub"
 		if sc.Real {
